@@ -365,6 +365,49 @@ pub fn run(ctx: &Ctx) -> Outcome {
     if out.failure.is_some() {
         return out;
     }
+    // leap-junction family: last transition recorded exactly on an inserted leap second (count L_n of the real table), DST rule with a
+    // boundary on the UTC second that this count denotes (1 January / 1 July 00:00:00 UTC): the well-formed zone must be accepted,
+    // its twin pointing at the other half of the rule must be refused
+    let rs = par_shards(1, |_, st| {
+        use crate::model::{MDay, MRule};
+        let table = oleap::real_table();
+        for n in 1..=table.len() {
+            let leaps = table[..n].to_vec();
+            let (l, _) = leaps[n - 1];
+            let u = match oleap::g(&leaps, l) {
+                Some(u) => u,
+                None => continue,
+            };
+            let cv = crate::cal::civil_from_unix(u as i128);
+            let day = if cv.mo == 1 { MDay::J1(1) } else { MDay::M(7, 1, crate::cal::weekday(crate::cal::days_from_civil(cv.y, 7, 1)) as u8) };
+            for dst_first in [true, false] {
+                let std = MLtt::new(0, false, Some("STD"));
+                let dst = MLtt::new(3600, true, Some("DST"));
+                let other = MDay::J1(100);
+                let rule = if dst_first { MRule { std: std.clone(), dst: dst.clone(), start: day, start_time: 0, end: other, end_time: 3600 } } else { MRule { std: std.clone(), dst: dst.clone(), start: other, start_time: 0, end: day, end_time: 3600 } };
+                if crate::orule::classify(&rule) == crate::orule::Class::Unstable {
+                    continue;
+                }
+                for good in [true, false] {
+                    // at u the rule switches to dst (dst_first) or to std
+                    let right = if dst_first { 1usize } else { 0 };
+                    let idx_last = if good { right } else { 1 - right };
+                    let z = MZone { trans: vec![(l - 40_000_000, 1 - idx_last), (l, idx_last)], types: vec![std.clone(), dst.clone()], leaps: leaps.clone(), trailer: MTrailer::Alt(rule.clone()) };
+                    check_enum("tuple", &z, st, |z, st| {
+                        let r = check_tuple(z, good, st);
+                        st.nontrivial_exact(1);
+                        st.class("leap_junction_family");
+                        r
+                    })?;
+                }
+            }
+        }
+        Ok(())
+    });
+    out.absorb_all(rs);
+    if out.failure.is_some() {
+        return out;
+    }
     // LocalTimeType::new
     let rs = par_shards(1, |_, st| {
         for len in 0..=10usize {
